@@ -10,7 +10,7 @@ package main
 // the check BROKEN (exit 2), never a pass.
 var minOblFloor = map[string]int{
 	"C01": 77, "C02": 41, "C03": 41, "C04": 29, "C05": 65, "C06": 12, "C07": 21, "C08": 23,
-	"C09": 33, // enumerated: functions writing Node fields
+	"C09": 36, // enumerated: functions writing Node fields
 	"C10": 28, // enumerated: functions with append / index sites
 	"C11": 16,
 	"C12": 38, // enumerated: map ranges, clock sites, goroutines on the consensus path
@@ -18,7 +18,7 @@ var minOblFloor = map[string]int{
 	"C14": 59, "C15": 18, "C16": 18, "C17": 30, "C18": 23, "C19": 38, "C20": 20, "C21": 29, "C23": 24, "C24": 42, "C25": 42,
 	"C26": 24,
 	"C27": 10, // enumerated: loops in the arithmetic closure
-	"C28": 44, "C30": 21, "C31": 5, "C32": 47, "C33": 29, "C34": 17, "C35": 39, "C36": 34, "C37": 29,
+	"C28": 44, "C30": 21, "C31": 5, "C32": 48, "C33": 29, "C34": 17, "C35": 39, "C36": 34, "C37": 29,
 	"C38": 52, // enumerated: GetSignBytes implementations
 	"C39": 13, "C40": 18, "C42": 39, "C43": 32,
 }
